@@ -453,6 +453,10 @@ def run_scenario(sc, hooks=None, world=None, crash_after_write=None):
         for ev in sc["events"]:
             if ev[1] == "move":
                 w.clock.labelled(base - w.clock.seconds() + ev[0], "fault.move_leader", cl.move_leader, TOPIC, PART, ev[2])
+            elif ev[1] == "stop_broker":
+                w.clock.labelled(base - w.clock.seconds() + ev[0], "fault.stop_broker", cl.stop_broker, ev[2])
+            elif ev[1] == "start_broker":
+                w.clock.labelled(base - w.clock.seconds() + ev[0], "fault.start_broker", cl.start_broker, ev[2])
             elif ev[1] == "truncate":
                 def trunc(o=ev[2]):
                     cl.log(TOPIC, PART).truncate_before(o)
